@@ -144,7 +144,15 @@ def tie_sentence(pid):
         path = os.path.join(V, "lean", m.replace(".", "/") + ".lean")
         if os.path.exists(path):
             n += len(re.findall(r"^theorem\s+\S+_tie\b", open(path).read(), flags=re.M))
-    extra = {"C11": " The 28 Doc 9871 row theorems are also stated directly for the generated definitions (Tie/C11Gen.lean).",
+    extra = {"C01": " The generated crc (two nested loops translated from the source) is proved equal to the model (crc_tie); remainder, parity independence, burst and weight-<=5 detection are restated for it (Tie/C01Gen.lean).",
+             "C02": " icao rests on the generated crc (no external); AA / AP-overlay recovery restated for the generated icao (Tie/C0278Gen.lean).",
+             "C03": " Global and local decode theorems restated for the generated decoders (Tie/C03Gen.lean).",
+             "C04": " Local decode exactness and stability restated for the generated decoders (Tie/C03Gen.lean).",
+             "C05": " Surface hemisphere / quadrant and recovery theorems restated for the generated decoder (Tie/C03Gen.lean).",
+             "C16": " The three generated readers and handle_messages (object methods with threaded state) are proved equal to the stream model; chunk invariance and NetSource conservation are restated for the generated client loop (Tie/C16Gen.lean).",
+             "C18": " All of uplink.py incl. the uplink_icao division loop is tied; the address round trip is restated for the generated loop (Tie/C18Gen.lean).",
+             "C19": " The generated _process_buffer (with _calc_noise, _check_preamble, _check_msg and the generated crc) is proved equal to the demodulator model; never_bad_df17 and the recovery theorems are restated for it (Tie/C19Gen.lean).",
+             "C11": " The 28 Doc 9871 row theorems are also stated directly for the generated definitions (Tie/C11Gen.lean).",
              "C12": " The exact characterisations is40/44/45/50/53_iff are also stated directly for the generated definitions (Tie/C12Gen.lean)."}
     return (" Source-generated tie: %d theorems (%s) prove that the Lean definitions harness/py2lean.py regenerates from the current "
             "text of the anchored functions on every run equal the hand model on every well-formed frame, so the theorems above are "
